@@ -168,6 +168,11 @@ def _concatenate(lines):
             else:
                 index += 1
                 line = line[:-1] + lines[index]
+        if re.match(_BAD_CONTINUATION_TRAILING_WHITESPACE, line):
+            # e.g. the last of several continued lines ends in '\\ '
+            msg = ("Syntax error line {0}: Whitespace after the line "
+                   "continuation character (\\).")
+            raise FileParseError(msg.format(index + 1))
         clines.append(line)
         index += 1
     return clines
@@ -533,7 +538,20 @@ def read_and_proc(
         os.chdir(original_cwd)
 
     # return rstripped lines
-    return [fl.rstrip() for fl in flines]
+    return [_rstrip(fl) for fl in flines]
+
+
+def _rstrip(line: str) -> str:
+    """Strip trailing whitespace, but never turn "\\ " into a continuation.
+
+    A backslash followed by whitespace (only accepted after a "#") is not a
+    continuation marker; stripping the whitespace would make it one when
+    the processed file is parsed again.
+    """
+    stripped = line.rstrip()
+    if stripped != line and stripped.endswith('\\'):
+        return stripped + ' '
+    return stripped
 
 
 def hashbang_and_plugin_templating_clash(
